@@ -1,0 +1,177 @@
+//go:build verif
+// +build verif
+
+package capnp
+
+// Thin wrappers around the unexported pure integer functions of address.go, rawpointer.go,
+// list.go, segment.go, struct.go and message.go, for the translation validation of the
+// verification framework (the Coq definitions generated from this source by gotrans are run
+// on the same arguments). This file is compiled only with the build tag "verif".
+
+import (
+	"sync/atomic"
+	"unsafe"
+)
+
+// verifFakeBytes returns a byte slice with a nil data pointer and the given length. It must
+// only be used for len(); it is how segment.go's bounds checks are exercised with lengths
+// that cannot be allocated.
+func verifFakeBytes(n int) []byte {
+	var b []byte
+	h := (*[3]uintptr)(unsafe.Pointer(&b))
+	h[1] = uintptr(n)
+	h[2] = uintptr(n)
+	return b
+}
+
+var verifArithArity = map[string]int{
+	"go_addSize": 2, "go_addSizeUnchecked": 2, "go_element": 3, "go_addOffset": 2,
+	"go_times": 2, "go_timesUnchecked": 2, "go_padToWord": 1,
+	"go_isZero": 2, "go_isOneByte": 2, "go_isValid": 2, "go_pointerSize": 2, "go_totalSize": 2,
+	"go_dataWordCount": 2, "go_totalWordCount": 2,
+	"go_BitOffset_offset": 1, "go_BitOffset_mask": 1, "go_bitListSize": 1,
+	"go_resolve": 2, "go_nearPointerOffset": 2, "go_rawStructPointer": 3, "go_rawListPointer": 3,
+	"go_rawInterfacePointer": 1, "go_rawFarPointer": 2, "go_rawDoubleFarPointer": 2,
+	"go_landingPadNearPointer": 2, "go_pointerType": 1, "go_structSize": 1, "go_listType": 1,
+	"go_numListElements": 1, "go_elementSize": 1, "go_totalListSize": 1, "go_rawPointer_offset": 1,
+	"go_withOffset": 2, "go_farAddress": 1, "go_farSegment": 1, "go_otherPointerType": 1,
+	"go_capabilityIndex": 1,
+	"go_inBounds": 2, "go_regionInBounds": 3,
+	"go_pointerAddress": 4, "go_bitInData": 4, "go_dataAddress": 6,
+	"go_canRead_step": 2,
+}
+
+// VerifArith calls the function that gotrans translates to the Coq definition `name`.
+// Arguments and results are flattened to uint64: integers by conversion (signed values sign
+// extended), bool as 0/1, ObjectSize as DataSize, PointerCount. panicked reports a Go panic
+// inside the function. An unknown name or a wrong number of arguments panics.
+func VerifArith(name string, a []uint64) (results []uint64, panicked bool) {
+	if n, ok := verifArithArity[name]; !ok || n != len(a) {
+		panic("VerifArith: unknown function or wrong number of arguments: " + name)
+	}
+	defer func() {
+		if e := recover(); e != nil {
+			results, panicked = nil, true
+		}
+	}()
+	b := func(v bool) uint64 {
+		if v {
+			return 1
+		}
+		return 0
+	}
+	osz := func(i int) ObjectSize { return ObjectSize{DataSize: Size(a[i]), PointerCount: uint16(a[i+1])} }
+	r := func(v ...uint64) ([]uint64, bool) { return v, false }
+	s32 := func(v int32) uint64 { return uint64(int64(v)) }
+	switch name {
+	case "go_addSize":
+		x, ok := address(a[0]).addSize(Size(a[1]))
+		return r(uint64(x), b(ok))
+	case "go_addSizeUnchecked":
+		return r(uint64(address(a[0]).addSizeUnchecked(Size(a[1]))))
+	case "go_element":
+		x, ok := address(a[0]).element(int32(a[1]), Size(a[2]))
+		return r(uint64(x), b(ok))
+	case "go_addOffset":
+		return r(uint64(address(a[0]).addOffset(DataOffset(a[1]))))
+	case "go_times":
+		x, ok := Size(a[0]).times(int32(a[1]))
+		return r(uint64(x), b(ok))
+	case "go_timesUnchecked":
+		return r(uint64(Size(a[0]).timesUnchecked(int32(a[1]))))
+	case "go_padToWord":
+		return r(uint64(Size(a[0]).padToWord()))
+	case "go_isZero":
+		return r(b(osz(0).isZero()))
+	case "go_isOneByte":
+		return r(b(osz(0).isOneByte()))
+	case "go_isValid":
+		return r(b(osz(0).isValid()))
+	case "go_pointerSize":
+		return r(uint64(osz(0).pointerSize()))
+	case "go_totalSize":
+		return r(uint64(osz(0).totalSize()))
+	case "go_dataWordCount":
+		return r(s32(osz(0).dataWordCount()))
+	case "go_totalWordCount":
+		return r(s32(osz(0).totalWordCount()))
+	case "go_BitOffset_offset":
+		return r(uint64(BitOffset(a[0]).offset()))
+	case "go_BitOffset_mask":
+		return r(uint64(BitOffset(a[0]).mask()))
+	case "go_bitListSize":
+		return r(uint64(bitListSize(int32(a[0]))))
+	case "go_resolve":
+		x, ok := pointerOffset(a[0]).resolve(address(a[1]))
+		return r(uint64(x), b(ok))
+	case "go_nearPointerOffset":
+		return r(s32(int32(nearPointerOffset(address(a[0]), address(a[1])))))
+	case "go_rawStructPointer":
+		return r(uint64(rawStructPointer(pointerOffset(a[0]), osz(1))))
+	case "go_rawListPointer":
+		return r(uint64(rawListPointer(pointerOffset(a[0]), listType(a[1]), int32(a[2]))))
+	case "go_rawInterfacePointer":
+		return r(uint64(rawInterfacePointer(CapabilityID(a[0]))))
+	case "go_rawFarPointer":
+		return r(uint64(rawFarPointer(SegmentID(a[0]), address(a[1]))))
+	case "go_rawDoubleFarPointer":
+		return r(uint64(rawDoubleFarPointer(SegmentID(a[0]), address(a[1]))))
+	case "go_landingPadNearPointer":
+		return r(uint64(landingPadNearPointer(rawPointer(a[0]), rawPointer(a[1]))))
+	case "go_pointerType":
+		return r(uint64(int64(rawPointer(a[0]).pointerType())))
+	case "go_structSize":
+		sz := rawPointer(a[0]).structSize()
+		return r(uint64(sz.DataSize), uint64(sz.PointerCount))
+	case "go_listType":
+		return r(uint64(int64(rawPointer(a[0]).listType())))
+	case "go_numListElements":
+		return r(s32(rawPointer(a[0]).numListElements()))
+	case "go_elementSize":
+		sz := rawPointer(a[0]).elementSize()
+		return r(uint64(sz.DataSize), uint64(sz.PointerCount))
+	case "go_totalListSize":
+		x, ok := rawPointer(a[0]).totalListSize()
+		return r(uint64(x), b(ok))
+	case "go_rawPointer_offset":
+		return r(s32(int32(rawPointer(a[0]).offset())))
+	case "go_withOffset":
+		return r(uint64(rawPointer(a[0]).withOffset(pointerOffset(a[1]))))
+	case "go_farAddress":
+		return r(uint64(rawPointer(a[0]).farAddress()))
+	case "go_farSegment":
+		return r(uint64(rawPointer(a[0]).farSegment()))
+	case "go_otherPointerType":
+		return r(uint64(rawPointer(a[0]).otherPointerType()))
+	case "go_capabilityIndex":
+		return r(uint64(rawPointer(a[0]).capabilityIndex()))
+	case "go_inBounds":
+		s := &Segment{data: verifFakeBytes(int(a[0]))}
+		return r(b(s.inBounds(address(a[1]))))
+	case "go_regionInBounds":
+		s := &Segment{data: verifFakeBytes(int(a[0]))}
+		return r(b(s.regionInBounds(address(a[1]), Size(a[2]))))
+	case "go_pointerAddress":
+		p := Struct{seg: &Segment{}, off: address(a[0]), size: osz(1)}
+		return r(uint64(p.pointerAddress(uint16(a[3]))))
+	case "go_bitInData":
+		p := Struct{size: osz(1)}
+		if a[0] != 0 {
+			p.seg = &Segment{}
+		}
+		return r(b(p.bitInData(BitOffset(a[3]))))
+	case "go_dataAddress":
+		p := Struct{off: address(a[1]), size: osz(2)}
+		if a[0] == 0 {
+			p.seg = &Segment{}
+		}
+		x, ok := p.dataAddress(DataOffset(a[4]), Size(a[5]))
+		return r(uint64(x), b(ok))
+	case "go_canRead_step":
+		m := new(Message)
+		m.ResetReadLimit(a[0])
+		ok := m.canRead(Size(a[1]))
+		return r(atomic.LoadUint64(&m.rlimit), b(ok))
+	}
+	panic("VerifArith: not implemented: " + name)
+}
